@@ -426,3 +426,8 @@ def extra(rep, impl_exe, model_exe, rng, tier):
     import held
     v = held.held_phase(rep, impl_exe, rng, ["qr 0 0", "qr 1 1", "qr 2 2", "qr 3 3"], n=8 if tier == "quick" else 60)
     return v + held.qr_adversarial_phase(rep, impl_exe, rng, tier, held.run_fresh_each)
+
+
+def public_line(line):
+    t = line.split(" ")
+    return "encfull " + line if t[0] == "qr" and len(t) == 4 else None
